@@ -42,6 +42,13 @@ def punct (b : Byte) : Option TT :=
   else if b = 44 then some .comma else if b = 58 then some .colon
   else if b = 61 then some .equals else none
 
+/-- a cluster stops before a quote, a backslash or a control character (the bytes that matter to the
+    scanner); `rest` are the bytes after the cluster's first byte -/
+def clampAdv (a : Nat) (rest : List Byte) : Nat :=
+  match (rest.take (a - 1)).findIdx? (fun c => c = 34 || c = 92 || c < 32) with
+  | some j => j + 1
+  | none => a
+
 /-- `scanString` after the opening quote: returns the number of bytes consumed from `buf`.
     `fuel` bounds the loop (one unit per iteration; `buf.length + 1` is always enough). -/
 def scanStringBody (adv : List Byte → Nat) : Nat → List Byte → Bool → Nat
@@ -55,6 +62,7 @@ def scanStringBody (adv : List Byte → Nat) : Nat → List Byte → Bool → Na
     else
       let a := max 1 (adv (b :: rest))
       let a := min a (rest.length + 1)
+      let a := clampAdv a rest
       a + scanStringBody adv fuel (rest.drop (a - 1)) false
 
 /-- length of the string token that starts at the `"` heading `buf` -/
